@@ -1,5 +1,160 @@
-/- Model for C12 (core Lean only, no Mathlib). -/
+/-
+Model for C12 (core Lean only, no Mathlib): tile queries and tile dependency graphs of
+`GeoboxTiles` (`odc/geo/geobox.py:1397-1507`), on top of the tilings of `Model/C04`.
+
+Pixel coordinates are exact rationals.  Geometry predicates of shapely (`disjoint`) and the
+reprojected footprints of the general path are parameters.
+-/
 import OdcGeo.Model.IO
+import OdcGeo.Model.Affine
+import OdcGeo.Model.C04
 namespace OdcGeo.C12
+open OdcGeo OdcGeo.C17 OdcGeo.C04
+
+/-- a `BoundingBox` without CRS: `(left, bottom, right, top)` in pixel space -/
+structure BBox where
+  x1 : Rat
+  y1 : Rat
+  x2 : Rat
+  y2 : Rat
+  deriving Repr
+
+/-- a tiled linear GeoBox: image shape and tiling (the CRS plays no role in pixel space) -/
+structure GBT where
+  ny : Int
+  nx : Int
+  tiles : Tiling2
+
+/-- `math.clamp(x, lo, up)` (`assert lo <= up`) -/
+def clamp (x lo up : Int) : Res Int :=
+  if lo ≤ up then .ok (if x < lo then lo else if x > up then up else x)
+  else .error .assertion
+
+/-- `range_from_bbox._clamp(span, N)`: first and last pixel touched by the span, clamped to
+the image -/
+def clampSpan (a1 a2 : Rat) (N : Int) : Res (Int × Int) := do
+  let p ← clamp a1.floor 0 (N - 1)
+  let q ← clamp a2.ceil 1 N
+  return (p, q - 1)
+
+/-- `GeoboxTiles.range_from_bbox(bbox)` for a pixel-space box: inclusive tile ranges
+`((r1, r2), (c1, c2))` standing for `range(r1, r2 + 1), range(c1, c2 + 1)`. -/
+def rangeFromBBox (g : GBT) (b : BBox) : Res ((Int × Int) × (Int × Int)) := do
+  let (px1, px2) ← clampSpan b.x1 b.x2 g.nx
+  let (py1, py2) ← clampSpan b.y1 b.y2 g.ny
+  let (r1, c1) ← locate2 g.tiles py1 px1
+  let (r2, c2) ← locate2 g.tiles py2 px2
+  return ((r1, r2), (c1, c2))
+
+/-- `range(a, b + 1)` -/
+def irange (a b : Int) : List Int :=
+  (List.range (b + 1 - a).toNat).map fun (k : Nat) => a + (k : Int)
+
+/-- `itertools.product(yy, xx)` -/
+def product (yy xx : List Int) : List (Int × Int) :=
+  yy.flatMap fun y => xx.map fun x => (y, x)
+
+/-- candidate tiles of a box: `itertools.product(*range_from_bbox(bbox))` -/
+def candidates (g : GBT) (b : BBox) : Res (List (Int × Int)) := do
+  let ((r1, r2), (c1, c2)) ← rangeFromBBox g b
+  return product (irange r1 r2) (irange c1 c2)
+
+/-- `GeoboxTiles._tiles_from_pix_bbox(bbox)` (as repaired: a box without overlap with the
+image yields nothing instead of the clamped edge tiles). -/
+def tilesFromPixBBox (g : GBT) (b : BBox) : Res (List (Int × Int)) :=
+  if b.x2 ≤ 0 ∨ b.x1 ≥ g.nx ∨ b.y2 ≤ 0 ∨ b.y1 ≥ g.ny then .ok []
+  else candidates g b
+
+/-- `GeoboxTiles.tiles(geometry)`: candidates from the bounding box (already in pixel space),
+kept when shapely says the tile's footprint is not disjoint from the query. -/
+def tilesGeom (g : GBT) (b : BBox) (disjoint : Int × Int → Bool) : Res (List (Int × Int)) := do
+  let c ← candidates g b
+  return c.filter fun idx => !disjoint idx
+
+/-! ### the linear path  (geobox.py:1448-1477; math.py:39-102, 340-380) -/
+
+def rabs (x : Rat) : Rat := if x < 0 then -x else x
+
+/-- `split_float(x)` for finite `x`: `(whole, part)` with `part ∈ [-1/2, 1/2]`, `fmod` rounds
+towards zero. -/
+def splitFloat (x : Rat) : Rat × Rat :=
+  let t : Rat := if x < 0 then -((-x).floor : Int) else (x.floor : Int)   -- trunc(x)
+  let part := x - t
+  if part > 1 / 2 then (t + 1, part - 1)
+  else if part < -(1 / 2) then (t - 1, part + 1)
+  else (t, part)
+
+/-- `maybe_int(x, tol)`; the flag says whether snapping happened (`int` returned) -/
+def maybeInt (x tol : Rat) : Rat × Bool :=
+  let (w, p) := splitFloat x
+  if rabs p < tol then (w, true) else (x, false)
+
+/-- `snap_scale(s, tol)` -/
+def snapScale (s tol : Rat) : Rat :=
+  if rabs s ≥ 1 - tol then (maybeInt s tol).1
+  else if rabs s < tol then s
+  else
+    let r := maybeInt (1 / s) tol
+    if r.2 then 1 / r.1 else s
+
+/-- `snap_affine(A, ttol, stol, tol)` -/
+def snapAffine (A : Aff) (ttol stol tol : Rat) : Aff :=
+  if rabs A.b > tol ∨ rabs A.d > tol then A
+  else ⟨snapScale A.a stol, 0, (maybeInt A.c ttol).1, 0, snapScale A.e stol, (maybeInt A.f ttol).1⟩
+
+/-- `_check_linear` for two linear GeoBoxes of the same CRS: `A` maps destination pixels to
+source pixels; `none` sends `grid_intersect` to the general path.
+`tols = (ttol, stol, tol, st_tol)` are the doubles `1e-3, 1e-6, 1e-8, 1e-10`. -/
+def checkLinear (srcT dstT : Aff) (ttol stol tol sttol : Rat) : Res (Option Aff) := do
+  let inv ← srcT.inv?
+  let A := snapAffine (inv * dstT) ttol stol tol
+  return if rabs A.b < sttol ∧ rabs A.d < sttol then some A else none
+
+def min4 (a b c d : Rat) : Rat := min (min a b) (min c d)
+def max4 (a b c d : Rat) : Rat := max (max a b) (max c d)
+
+/-- `BoundingBox.transform(A)`: bounding box of the four mapped corners -/
+def BBox.transform (b : BBox) (A : Aff) : BBox :=
+  let p1 := A.apply (b.x1, b.y1)
+  let p2 := A.apply (b.x1, b.y2)
+  let p3 := A.apply (b.x2, b.y1)
+  let p4 := A.apply (b.x2, b.y2)
+  ⟨min4 p1.1 p2.1 p3.1 p4.1, min4 p1.2 p2.2 p3.2 p4.2,
+   max4 p1.1 p2.1 p3.1 p4.1, max4 p1.2 p2.2 p3.2 p4.2⟩
+
+/-- `BoundingBox.round()`: expand to integers -/
+def BBox.round (b : BBox) : BBox :=
+  ⟨(b.x1.floor : Int), (b.y1.floor : Int), (b.x2.ceil : Int), (b.y2.ceil : Int)⟩
+
+/-- `GeoboxTiles.pix_bbox(idx)` -/
+def pixBBox (g : GBT) (idx : Int × Int) : Res BBox := do
+  let (ry, rx) ← getItem2 g.tiles (.idx idx.1) (.idx idx.2)
+  return ⟨(rx.start : Int), (ry.start : Int), (rx.stop : Int), (ry.stop : Int)⟩
+
+/-- `_all_tiles()`: `np.ndindex(shape)` -/
+def allTiles (g : GBT) : List (Int × Int) :=
+  product (irange 0 (g.tiles.y.count - 1)) (irange 0 (g.tiles.x.count - 1))
+
+/-- dependencies of one destination tile on the linear path -/
+def linearDeps (dst src : GBT) (A : Aff) (idx : Int × Int) : Res (List (Int × Int)) := do
+  let b ← pixBBox dst idx
+  tilesFromPixBBox src ((b.transform A).round)
+
+/-- `_grid_intersect_linear(src, A)` -/
+def gridIntersectLinear (dst src : GBT) (A : Aff) : Res (List ((Int × Int) × List (Int × Int))) :=
+  (allTiles dst).mapM fun idx => do
+    let d ← linearDeps dst src A idx
+    return (idx, d)
+
+/-! ### the general path  (geobox.py:1492-1507): control flow only
+
+`dstCand` / `dstDisjoint`: candidate destination tiles for the (reprojected) source footprint
+and shapely's verdict; `srcCand d` / `srcDisjoint d`: the same for the source tiles queried
+with the extent of destination tile `d`. -/
+def gridIntersectGeneral (dstCand : List (Int × Int)) (dstDisjoint : Int × Int → Bool)
+    (srcCand : Int × Int → List (Int × Int)) (srcDisjoint : Int × Int → Int × Int → Bool) :
+    List ((Int × Int) × List (Int × Int)) :=
+  (dstCand.filter fun d => !dstDisjoint d).map fun d =>
+    (d, (srcCand d).filter fun s => !srcDisjoint d s)
 
 end OdcGeo.C12
